@@ -73,8 +73,20 @@ type It = Interpreter<'static, f32>;
 
 const MAX_DEPTH: usize = 80;
 
+thread_local! {
+    static SER_NODES: Cell<usize> = Cell::new(0);
+}
+const MAX_NODES: usize = 200_000;
+
 fn ser_value(v: &V, depth: usize, alias: &mut Vec<usize>) -> J {
-    if depth > MAX_DEPTH {
+    if depth == 0 {
+        SER_NODES.with(|n| n.set(0));
+    }
+    let nodes = SER_NODES.with(|n| {
+        n.set(n.get() + 1);
+        n.get()
+    });
+    if depth > MAX_DEPTH || nodes > MAX_NODES {
         return json!({"deep": true});
     }
     match v {
